@@ -150,17 +150,18 @@ def observe(proj, argv, cwd, base, tag):
     return obs, res
 
 
-def make():
+def make(all_via_link=False):
     def fn(g):
         state = STATES[g.choose("state", len(STATES))]
         argv = COMMANDS[g.choose("cmd", len(COMMANDS))]
-        where = g.choose("cwd", len(CWDS) + 3)
+        linked = ("", "pkg") if not all_via_link else ("",) + CWDS
+        where = g.choose("cwd", len(CWDS) + 1 + len(linked))
         base = hrun.SCRATCH_BASE
         via_link = None
         if where > len(CWDS):
             # the same directories, entered through a symbolic link that lives outside the project ($PWD holds the link's path)
-            via_link = ("", "pkg")[where - len(CWDS) - 1]
-            where = CWDS.index("pkg")
+            via_link = linked[where - len(CWDS) - 1]
+            where = CWDS.index(via_link) if via_link else CWDS.index("pkg")
         D = "state=%s argv=%s cwd=%s%s" % (state, list(argv), (CWDS[where] if via_link != "" else "<root>") if where < len(CWDS) else "<outside the project>",
                                          " entered through a symbolic link outside the project" if via_link is not None else "")
         if where == len(CWDS):
@@ -215,12 +216,15 @@ def _short(x):
 
 
 def spaces(tier):
-    return [Space("commands-x-directories", make(),
+    extra = [Space("commands-x-directories-all-through-links", make(all_via_link=True),
+                   "as commands-x-directories, with EVERY directory also entered through a symbolic link outside the project", depth=3,
+                   tiers=("thorough",))] if tier == "thorough" else []
+    return extra[:0] + [Space("commands-x-directories", make(),
                   "%d command lines x 6 project states (one with 18 recorded versions, one with the leftover of a killed restore) x 10 directories inside the project (one of them 8 levels deep) (package dir, dir without COND, cond-out, "
                   "package dir under cond-out, nested sub-directory, a nested git repository and a directory below it, leftover "
                   "output directories of failed runs) + outside the project" % len(COMMANDS), depth=3,
                   goals=["command outside any project", "a location is reported from a sub-directory", "archive/restore from a sub-directory succeeds"],
-                  outside=["explorer command"])]
+                  outside=["explorer command"])] + extra
 
 
 def canaries(tier):
